@@ -37,7 +37,7 @@ pub struct Checked {
 }
 
 fn run_uninterrupted(b: Backend, c: &Case, total: usize) -> Result<Vec<f64>, String> {
-    let inp = input_fn(c.input_seed, true);
+    let inp = input_fn(c.input_seed, c.finite_inputs);
     let mut s = Session::build(b, &c.src, false, None).map_err(|e| e.short())?;
     let ich = s.io.input as usize;
     let mut out = vec![];
@@ -56,7 +56,7 @@ pub fn check(c: &Case, thorough: bool) -> Checked {
     let m = c.n;
     let sp = splits(c, thorough);
     let max_n = sp.iter().map(|s| s.0).max().unwrap_or(0);
-    let inp = input_fn(c.input_seed, true);
+    let inp = input_fn(c.input_seed, c.finite_inputs);
     for b in [Backend::Vm, Backend::Wasm] {
         let Ok(base) = run_uninterrupted(b, c, max_n + m) else { continue };
         for (n, k) in &sp {
@@ -191,10 +191,53 @@ pub fn meta(args: &Args) -> Value {
     })
 }
 
+/// hand-written programs marked `@swap-safe` (state only in self/mem/delay cells reachable from dsp)
+fn swap_safe_programs() -> Vec<(String, String)> {
+    let mut v = vec![];
+    if let Ok(rd) = std::fs::read_dir(super::c01::verif_dir().join("corpus/programs")) {
+        let mut fs: Vec<_> = rd.filter_map(|e| e.ok()).map(|e| e.path()).filter(|p| p.extension().is_some_and(|x| x == "mmm")).collect();
+        fs.sort();
+        for f in fs {
+            if let Ok(src) = std::fs::read_to_string(&f) {
+                if src.contains("@swap-safe") {
+                    v.push((f.file_name().unwrap().to_string_lossy().to_string(), src));
+                }
+            }
+        }
+    }
+    v
+}
+
 pub fn run(args: &Args, out: &mut Out) {
-    let total = args.cases(120, 4000);
+    let progs = swap_safe_programs();
+    let total = args.cases(120, 4000) + progs.len();
     let exec = exec_with(args);
-    drive(args, out, total, |_idx, rng| Some(gen_case(args, rng)), exec);
+    drive(
+        args,
+        out,
+        total,
+        |idx, rng| {
+            if idx < progs.len() {
+                return Some(Case {
+                    src: progs[idx].1.clone(),
+                    n: 24,
+                    input_seed: rng.next(),
+                    finite_inputs: true,
+                    prog: None,
+                    expect: None,
+                    scheduler: false,
+                    path: None,
+                    origin: Some(format!("corpus:{}", progs[idx].0)),
+                    split: None,
+                });
+            }
+            let mut c = gen_case(args, rng);
+            // hostile dsp inputs (NaN, infinities, -0.0, subnormals) in every third case: state cells then hold them at swap time
+            c.finite_inputs = !rng.chance(1, 3);
+            Some(c)
+        },
+        exec,
+    );
 }
 
 pub fn replay(args: &Args, out: &mut Out, case: &Value) {
